@@ -113,6 +113,10 @@ def roundHE (x : Num) : Int :=
 def round0 (x : Num) : Num := ofInt (roundHE x)
 --@end
 
+/-- `x - 360.0 * round(x / 360.0)` on floats (`round` with one argument: an int, ties to even):
+    the reduction to −180 … +180 used by `equation_of_time`, `interpol` and the transit hour angle. -/
+def wrap180 (x : Num) : Num := x - 360.0 * ofInt (roundHE (x / 360.0))
+
 /-! ## Sun.get_equinox_solstice (Sun.py:477) -/
 
 /-- `["spring", "summer", "autumn", "winter"].index(target)`, `ValueError("'target' value is
@@ -196,26 +200,17 @@ def eot_l0 (jde : Num) : Num :=
                     + t * (-1.0 / 15300.0 - t * 1.0 / 2000000.0))))
   aToPositive (aReduce l0)
 
-/-- `e = l0() - 0.0057183 - alpha + deltapsi * cos(epsilon.rad())` — an `Angle`, because `alpha`
-    and `deltapsi` are Angles (`alpha` already `to_positive()`). Arguments are the `_deg` values. -/
+/-- `e = l0() - 0.0057183 - alpha() + deltapsi() * cos(epsilon.rad())` — a float (`alpha` already
+    `to_positive()`). Arguments are the `_deg` values. -/
 def eot_raw (l0 alpha dpsi eps : Num) : Num :=
-  -- (l0() - 0.0057183) - alpha  = alpha.__rsub__(f) = -(alpha.__sub__(f))
-  let e1 := aNeg (aSubF alpha (l0 - 0.0057183))
-  -- deltapsi * cos(epsilon.rad())
-  let e2 := aMulF dpsi (pcos (pradians eps))
-  aAdd e1 e2
+  l0 - 0.0057183 - alpha + dpsi * pcos (pradians eps)
 
-/-- `e = e - 360.0 * round(e / 360.0)` on Angles: `e / 360.0`, `round(·)` (`Angle.__round__`,
-    `round(x, 0)`), `360.0 * ·` (`__rmul__`) are all `Angle` constructions. -/
-def eot_reduce (e : Num) : Num :=
-  let q := aReduce (e / 360.0)
-  let r := aReduce (round0 q)
-  let w := aMulF r 360.0
-  aSub e w
+/-- `e = e - 360.0 * round(e / 360.0)` on floats. -/
+def eot_reduce (e : Num) : Num := wrap180 e
 
-/-- `e *= 4.0` (minutes of time; again an `Angle`); `s = (abs(e()) % 1) * 60.0`; `m = int(e())`. -/
+/-- `e *= 4.0` (minutes of time); `s = (abs(e) % 1) * 60.0`; `m = int(e)`. -/
 def eot_split (e : Num) : Int × Num :=
-  let e4 := aMulF e 4.0
+  let e4 := e * 4.0
   (ptrunc e4, pmod (pabs e4) 1.0 * 60.0)
 
 /-- `Sun.equation_of_time(epoch)` with `alpha` (right ascension from `ecliptical2equatorial`,
@@ -280,7 +275,7 @@ def rise_set_args (r : Num × Num × Num) : Num × Num := (r.1 - (r.2.1 / 360.0)
 
 --@only F
 /-- `Epoch.rise_set(latitude, longitude, altitude)` from the stored JDE: `year, month, day =
-    self.get_date(); e = Epoch(year, month, day)` mirrored with EpochCore's `get_date` and
+    self.get_date(); e = Epoch(year, month, iint(day))` mirrored with EpochCore's `get_date` and
     `epoch_ymd`; `leap` is the implementation's `Epoch.leap_seconds(year, month)`.
     Output: the JDEs of `jrise`, `jsett`. -/
 def rise_set (jde : Num) (leap : Int) (lat lon altitude : Num) : PyRes (Num × Num) :=
@@ -288,7 +283,8 @@ def rise_set (jde : Num) (leap : Int) (lat lon altitude : Num) : PyRes (Num × N
   match get_date jde with
   | .error e => .error e
   | .ok (y, m, d) =>
-    match epoch_ymd y m d with
+    -- e = Epoch(year, month, iint(day))
+    match epoch_ymd y m (ofInt (pfloor d)) with
     | .error e => .error e
     | .ok ejde =>
       match rise_set_core ejde leap lat lon altitude with
@@ -352,32 +348,31 @@ def rts_iter (lon lat a1 d1 a2 d2 a3 d3 h0 delta_t theta0 : Num) (s : Num × Num
   let n2 := m2 + delta_t / 86400.0
   let set_alpha := rts_interpol n2 a1 a2 a3
   let set_delta := rts_interpol n2 d1 d2 d3
-  -- theta = theta0 + 360.985647 * m0; transit_ha = theta - longitude - transit_alpha
-  let transit_ha := aSub (aSub (aAdd theta0 (360.985647 * m0)) lon) transit_alpha
-  -- delta_transit = transit_ha / (-360.0)
-  match aDivF transit_ha (-360.0) with
+  -- theta = theta0 + 360.985647 * m0; transit_ha = float(theta - longitude - transit_alpha)
+  -- transit_ha -= 360.0 * round(transit_ha / 360.0)
+  let transit_ha := wrap180 (aSub (aSub (aAdd theta0 (360.985647 * m0)) lon) transit_alpha)
+  -- delta_transit = transit_ha / (-360.0)          (floats)
+  let delta_transit := transit_ha / (-360.0)
+  let rise_ha := aSub (aSub (aAdd theta0 (360.985647 * m1)) lon) rise_alpha
+  let set_ha := aSub (aSub (aAdd theta0 (360.985647 * m2)) lon) set_alpha
+  -- azi, rise_ele = equatorial2horizontal(rise_ha, rise_delta, latitude)
+  match rts_elevation rise_ha rise_delta lat with
   | .error e => .error e
-  | .ok delta_transit =>
-    let rise_ha := aSub (aSub (aAdd theta0 (360.985647 * m1)) lon) rise_alpha
-    let set_ha := aSub (aSub (aAdd theta0 (360.985647 * m2)) lon) set_alpha
-    -- azi, rise_ele = equatorial2horizontal(rise_ha, rise_delta, latitude)
-    match rts_elevation rise_ha rise_delta lat with
+  | .ok rise_ele =>
+    match rts_elevation set_ha set_delta lat with
     | .error e => .error e
-    | .ok rise_ele =>
-      match rts_elevation set_ha set_delta lat with
+    | .ok set_ele =>
+      -- delta_rise = (rise_ele - h0) / (360.0 * cos(rise_delta.rad()) * cos(lat) * sin(rise_ha.rad()))
+      match aDivF (aSub rise_ele h0)
+          (360.0 * pcos (pradians rise_delta) * pcos (pradians lat) * psin (pradians rise_ha)) with
       | .error e => .error e
-      | .ok set_ele =>
-        -- delta_rise = (rise_ele - h0) / (360.0 * cos(rise_delta.rad()) * cos(lat) * sin(rise_ha.rad()))
-        match aDivF (aSub rise_ele h0)
-            (360.0 * pcos (pradians rise_delta) * pcos (pradians lat) * psin (pradians rise_ha)) with
+      | .ok delta_rise =>
+        match aDivF (aSub set_ele h0)
+            (360.0 * pcos (pradians set_delta) * pcos (pradians lat) * psin (pradians set_ha)) with
         | .error e => .error e
-        | .ok delta_rise =>
-          match aDivF (aSub set_ele h0)
-              (360.0 * pcos (pradians set_delta) * pcos (pradians lat) * psin (pradians set_ha)) with
-          | .error e => .error e
-          | .ok delta_set =>
-            -- m0 += delta_transit(); m1 += delta_rise(); m2 += delta_set()
-            .ok (m0 + delta_transit, m1 + delta_rise, m2 + delta_set)
+        | .ok delta_set =>
+          -- m0 += delta_transit; m1 += delta_rise(); m2 += delta_set()
+          .ok (m0 + delta_transit, m1 + delta_rise, m2 + delta_set)
 
 /-- The part of `times_rise_transit_set` after the circumpolar test (`|hh0| ≤ 1`): returns
     `(m1 * 24.0, m0 * 24.0, m2 * 24.0)`; `.error .other` = `check_value` ran out of fuel. -/
